@@ -28,6 +28,9 @@ var scalarKeys = []Key{
 	{"1", true, "int1"}, {"2", true, "int2"}, {"0", true, "int0"}, {"-1", true, "int-1"}, {"1.0", true, "f1"}, {"2.5", true, "f2.5"}, {"0.0", true, "f0"},
 	{`"1"`, true, "s1"}, {`"a"`, true, "sa"}, {"'a", true, "sa"}, {`"b c"`, true, "sbc"}, {`""`, true, "s"}, {"nil", true, "nil"}, {"true", true, "bt"}, {"false", true, "bf"},
 	{"'_p", true, "s_p"}, {`"zz"`, true, "szz"}, {`"日本"`, true, "sjp"},
+	// distinct values that print alike, and equal-looking keys of different types
+	{"0.3", true, "f0.3"}, {"(0.1 + 0.2)", true, "f0.30000000000000004"}, {"1.0000001", true, "f1.0000001"}, {"1.00000011", true, "f1.00000011"}, {"-0.0", true, "f-0"},
+	{"9007199254740993", true, "int2^53+1"}, {"9007199254740992", true, "int2^53"}, {"9007199254740992.0", true, "f2^53"}, {`"nil"`, true, "snil"}, {`"true"`, true, "strue"}, {`"1.0"`, true, "s1.0"},
 }
 var otherKeys = []Key{
 	{"[1]", false, ""}, {"[1, 2]", false, ""}, {"[true]", false, ""}, {"[]", false, ""}, {"{a: 1}", false, ""}, {"{}", false, ""}, {"[[1]]", false, ""}, {"(1:2)", false, ""}, {`["a"]`, false, ""},
